@@ -56,6 +56,7 @@ Definition step (st : list (Z * obj)) (o e : line) : list (Z * obj) * outline :=
       | Some p => (st, ([Nz p], []))
       | None => (st, (refused, []))
       end
+  | 13 :: rest => CpcDefs.step st (11 :: rest) e            (* union update with an rvalue copy of the sketch: same effect *)
   | _ => CpcDefs.step st o e
   end.
 
